@@ -244,12 +244,14 @@ pub fn tail(log: &[String], n: usize) -> Vec<String> {
 /// Exit status of a child process, or None if it did not finish within `secs` (it is killed).
 pub fn status_with_timeout(c: &mut std::process::Command, secs: u64) -> Result<Option<i32>, String> {
     let mut child = c.spawn().map_err(|e| format!("cannot start process: {e}"))?;
-    let t0 = std::time::Instant::now();
+    // counted in 5 ms sleeps, not in elapsed wall time (robust against a suspended machine)
+    let mut ticks: u64 = 0;
     loop {
         match child.try_wait() {
             Ok(Some(st)) => return Ok(Some(st.code().unwrap_or(-1))),
             Ok(None) => {
-                if t0.elapsed().as_secs() >= secs {
+                ticks += 1;
+                if ticks >= secs * 200 {
                     let _ = child.kill();
                     let _ = child.wait();
                     return Ok(None);
